@@ -2,6 +2,7 @@ package mon
 
 import (
 	"fmt"
+	"math"
 	"math/rand"
 	"time"
 
@@ -138,6 +139,14 @@ func iterExpected(set model.Set, heads []string, order string, q iterQuery) (wan
 		S = S[:*q.Amount]
 	}
 	return S, true
+}
+
+func seqInts(from, to int) []int {
+	var out []int
+	for i := from; i <= to; i++ {
+		out = append(out, i)
+	}
+	return out
 }
 
 func CheckC15(run *evid.Run) {
@@ -394,7 +403,7 @@ func CheckC16(run *evid.Run) {
 		total := len(full.Values)
 		tot := totalOrder(h.Order, full.Set)
 		shape := model.ShapeDigest(full.Set)
-		for n := 0; n <= total+3; n++ {
+		for _, n := range append(seqInts(0, total+3), 1<<40, math.MaxInt64) {
 			x := exec()
 			var jerr error
 			var pan any
